@@ -165,9 +165,15 @@ def _worker(prop: str, wid: int, nworkers: int, master: int, tier: str, n_total:
     agg = Aggregator(prop)
     idxs = list(range(wid, n_total, nworkers))
     pos = 0
+    # SVSIM_STOP_FIRST (sensitivity tooling only): all workers stop dispatching once any of them has seen a violation
+    # that is not a listed known finding. Never set by the registered commands.
+    stop_flag = os.path.join(os.path.dirname(out_path), "STOP") if os.environ.get("SVSIM_STOP_FIRST") else None
+    known = load_known() if stop_flag else []
     with open(out_path, "w") as out:
         while pos < len(idxs):
             if _now() > deadline:
+                break
+            if stop_flag and os.path.exists(stop_flag):
                 break
             group = idxs[pos:pos + per_fork]
             pos += per_fork
@@ -177,6 +183,8 @@ def _worker(prop: str, wid: int, nworkers: int, master: int, tier: str, n_total:
                 agg.add(res)
                 if pos <= per_fork and res.get("digest") and not res.get("violations"):
                     out.write(json.dumps({"type": "digest", "seed": res["seed"], "digest": res["digest"]}) + "\n")
+                if stop_flag and any(match_known(known, prop, v) is None for v in res.get("violations") or []):
+                    open(stop_flag, "w").close()
                 if res.get("violations") or res.get("harness_error"):
                     out.write(json.dumps({"type": "detail", "res": res}, default=_json_default) + "\n")
         out.write(json.dumps({"type": "agg", "agg": agg.dump(), "done": pos >= len(idxs),
